@@ -1,7 +1,7 @@
 #!/bin/bash
 # re-validates every seeded change against /repo HEAD and the current checks: one job per property (5 in parallel), seeds of a property in sequence
 cd /verif
-one() { prop=$1; for d in seeded/$prop-*/; do id=$(basename $d); mkdir -p /dev/shm/seedsrc/$id; cp $d/patch.diff $d/demo.cpp /dev/shm/seedsrc/$id/; [ -f $d/NOTES.md ] && cp $d/NOTES.md /dev/shm/seedsrc/$id/; echo "== $id"; vlib/reseed.sh /dev/shm/seedsrc/$id $id $prop; done > /dev/shm/reseed_$prop.log 2>&1; }
+one() { prop=$1; for d in seeded/$prop-*/; do id=$(basename $d); [ -f $d/RETIRED.md ] && { echo "== $id"; echo "RETIRED (see seeded/$id/RETIRED.md)"; continue; }; mkdir -p /dev/shm/seedsrc/$id; cp $d/patch.diff $d/demo.cpp /dev/shm/seedsrc/$id/; [ -f $d/NOTES.md ] && cp $d/NOTES.md /dev/shm/seedsrc/$id/; echo "== $id"; vlib/reseed.sh /dev/shm/seedsrc/$id $id $prop; done > /dev/shm/reseed_$prop.log 2>&1; }
 export -f one
 ls seeded | grep -v INDEX | sed 's/-.$//' | sort -u | xargs -P 5 -I{} bash -c 'one {}'
 cat /dev/shm/reseed_C*.log > /dev/shm/reseed_all.log
